@@ -8,7 +8,7 @@
 From Coq Require Import Sorting.Sorted ZArith.
 From Stam Require Import Base.Tac Model.Offset Model.Store Model.StoreObs Spec.StoreSpec
      Proofs.StoreScan Proofs.StoreInv Proofs.StoreDataDef Proofs.StoreRemove Proofs.StoreData Proofs.StoreStable
-     Model.Compress Proofs.Compress Proofs.StoreSel Model.SubOrder Proofs.SubOrder Model.SubOrderArms Gen.SubOrderTable Proofs.AgreeSubOrder.
+     Model.Compress Proofs.Compress Proofs.StoreSel Model.SubOrder Proofs.SubOrder Model.SubOrderArms Gen.SubOrderTable Proofs.AgreeSubOrder Model.Forward Proofs.Forward.
 From Stam Require Model.Validate Proofs.ValidateProtect.
 
 (* every reverse index of every reachable store is exact *)
@@ -69,6 +69,15 @@ Proof.
   intros ops r t d x. pose proof (C01_index_invariant ops) as HI.
   rewrite (I_trm noex _ HI), (I_ddam noex _ HI) by reflexivity. split; reflexivity.
 Qed.
+
+(* asking an annotation for its targets by kind (resources(), data_as_metadata(), ... walk the
+   target recursively through annotation selectors): in every reachable store that walk
+   terminates - targets are older than what names them - and its result does not depend on the
+   fuel once it exceeds the number of annotation slots *)
+Theorem C01_target_walk_terminates : forall ops h a k,
+  get_ann (run ops) h = Some a ->
+  rec_leaves (length (anns (run ops)) + k) (run ops) (a_leaves a) = all_leaves (run ops) a.
+Proof. exact forward_walk_terminates. Qed.
 
 (* The comparator with which the members of Multi/Composite selectors are sorted before they are
    compressed (sort_unstable_by needs a consistent total order, for every mix of the nine selector
